@@ -27,6 +27,7 @@ package main
 import (
 	"fmt"
 	"go/constant"
+	"go/token"
 	"go/types"
 	"strings"
 
@@ -44,6 +45,8 @@ type lx struct {
 	Form  *Form
 	Name  string
 	Buf   *bufSpec
+	// Mark: in skeleton mode a named piece with a mark compiles to that placeholder
+	Mark int
 }
 
 type bufPiece struct {
@@ -65,7 +68,137 @@ type oframe struct {
 	env   termEnv
 	bind  map[ssa.Value]*lx
 	depth int
+	// orig: for parameters that are not strings, the value they stand for in the outermost frame
+	orig map[ssa.Value]ssa.Value
 }
+
+// rootOf: the value of the outermost frame that v stands for (through interface wrapping).
+func (fr *oframe) rootOf(v ssa.Value) ssa.Value {
+	for i := 0; i < 8; i++ {
+		switch x := v.(type) {
+		case *ssa.MakeInterface:
+			v = x.X
+			continue
+		case *ssa.ChangeType:
+			v = x.X
+			continue
+		case *ssa.ChangeInterface:
+			v = x.X
+			continue
+		}
+		break
+	}
+	if r, ok := fr.orig[v]; ok {
+		return r
+	}
+	return v
+}
+
+// jsonMarkBase: placeholder keys of encoder outputs, by the index of the top-level parameter encoded
+const jsonMarkBase = 5900
+
+// errChecked: the use in block b of result #idx of call (whose last result is an error) is
+// dominated by a test that the error is nil.
+func errChecked(call *ssa.Call, b *ssa.BasicBlock) bool {
+	tu, ok := call.Type().(*types.Tuple)
+	if !ok || tu.Len() < 2 || !isErrorType(tu.At(tu.Len()-1).Type()) {
+		return true
+	}
+	var errv ssa.Value
+	for _, ref := range *call.Referrers() {
+		if ex, ok := ref.(*ssa.Extract); ok && ex.Index == tu.Len()-1 {
+			errv = ex
+		}
+	}
+	if errv == nil {
+		return false
+	}
+	for d := b; d != nil; d = d.Idom() {
+		id := d.Idom()
+		if id == nil {
+			break
+		}
+		iff, ok := id.Instrs[len(id.Instrs)-1].(*ssa.If)
+		if !ok {
+			continue
+		}
+		bo, ok := iff.Cond.(*ssa.BinOp)
+		if !ok || bo.X != errv {
+			continue
+		}
+		if k, ok := bo.Y.(*ssa.Const); !ok || k.Value != nil {
+			continue
+		}
+		// err != nil: the false side; err == nil: the true side
+		if bo.Op == token.NEQ && id.Succs[1].Dominates(b) && !id.Succs[0].Dominates(b) {
+			return true
+		}
+		if bo.Op == token.EQL && id.Succs[0].Dominates(b) && !id.Succs[1].Dominates(b) {
+			return true
+		}
+	}
+	return false
+}
+
+// safeStructContent: v is a value of a struct type of the module with a single string field
+// (the safe types); returns the language of that field.
+func (oe *outEval) safeStructContent(v ssa.Value, b *ssa.BasicBlock, fr *oframe) (*lx, bool) {
+	nt, ok := v.Type().(*types.Named)
+	if !ok || nt.Obj().Pkg() == nil || !strings.HasPrefix(nt.Obj().Pkg().Path(), modulePath) {
+		return nil, false
+	}
+	st, ok := nt.Underlying().(*types.Struct)
+	if !ok || st.NumFields() != 1 || !isStringish(st.Field(0).Type()) {
+		return nil, false
+	}
+	switch x := v.(type) {
+	case *ssa.Const:
+		return lxLit(""), true
+	case *ssa.UnOp:
+		if al, ok := x.X.(*ssa.Alloc); ok && x.Op == token.MUL {
+			var alts []*lx
+			for _, ref := range *al.Referrers() {
+				if fa, ok := ref.(*ssa.FieldAddr); ok {
+					for _, r2 := range *fa.Referrers() {
+						if s, ok := r2.(*ssa.Store); ok && s.Addr == ssa.Value(fa) {
+							alts = append(alts, oe.strLx(s.Val, s.Block(), fr))
+						}
+					}
+				}
+			}
+			if len(alts) == 0 {
+				return lxLit(""), true
+			}
+			return lxAlt(alts...), true
+		}
+	case *ssa.Call:
+		return oe.callLx(x, 0, b, fr), true
+	case *ssa.Extract:
+		if call, ok := x.Tuple.(*ssa.Call); ok {
+			return oe.callLx(call, x.Index, b, fr), true
+		}
+	case *ssa.Phi:
+		if oe.visiting[x] {
+			return lxAny(), true
+		}
+		if oe.visiting == nil {
+			oe.visiting = map[*ssa.Phi]bool{}
+		}
+		oe.visiting[x] = true
+		defer delete(oe.visiting, x)
+		var alts []*lx
+		for i, e := range x.Edges {
+			a, _ := oe.safeStructContent(e, x.Block().Preds[i], fr)
+			if a == nil {
+				a = lxAny()
+			}
+			alts = append(alts, a)
+		}
+		return lxAlt(alts...), true
+	}
+	return lxAny(), true
+}
+
 
 type outEval struct {
 	p        *Program
@@ -74,6 +207,8 @@ type outEval struct {
 	Problems []string
 	active   map[*ssa.Function]int
 	visiting map[*ssa.Phi]bool
+	// forwarded: calls whose error result is returned together with the value (the caller tests it)
+	forwarded map[*ssa.Call]bool
 	// Markers: compile every term as one private-use symbol (a placeholder) instead of its guard language; the
 	// skeleton of the output is then compared with a specification over the same placeholders
 	Markers   bool
@@ -149,6 +284,8 @@ func (x *lx) String() string {
 		return "writes(" + strings.TrimPrefix(fnName(x.Buf.fn), modulePath) + ")"
 	case "none":
 		return "∅"
+	case "trimsuffix", "trimprefix":
+		return fmt.Sprintf("%s(%s, %q)", x.Kind, x.Parts[0].String(), x.S)
 	}
 	return "?"
 }
@@ -178,6 +315,9 @@ func (oe *outEval) strLx(v ssa.Value, b *ssa.BasicBlock, fr *oframe) *lx {
 	if k, ok := constString(v); ok {
 		return lxLit(k)
 	}
+	if x, ok := oe.safeStructContent(v, b, fr); ok {
+		return x
+	}
 	if x, ok := fr.bind[v]; ok && x.Kind != "term" {
 		return x
 	}
@@ -193,6 +333,9 @@ func (oe *outEval) strLx(v ssa.Value, b *ssa.BasicBlock, fr *oframe) *lx {
 	case *ssa.Const:
 		if x.Value != nil && x.Value.Kind() == constant.String {
 			return lxLit(constant.StringVal(x.Value))
+		}
+		if x.Value == nil && isByteSlice(x.Type()) {
+			return lxLit("") // a nil byte slice
 		}
 	case *ssa.BinOp:
 		if x.Op.String() == "+" {
@@ -311,6 +454,9 @@ func (oe *outEval) callLx(call *ssa.Call, idx int, b *ssa.BasicBlock, fr *oframe
 	if f == nil {
 		return lxAny()
 	}
+	if !oe.forwarded[call] && !errChecked(call, b) {
+		return oe.note("result of %s used at %s without a test of its error", fnName(f), oe.p.Pos(call.Pos()))
+	}
 	switch fnName(f) {
 	case "fmt.Sprintf":
 		if format, ok := constString(c.Args[0]); ok {
@@ -327,11 +473,28 @@ func (oe *outEval) callLx(call *ssa.Call, idx int, b *ssa.BasicBlock, fr *oframe
 			}
 		}
 		return lxAny()
-	case "(*bytes.Buffer).String":
+	case "(*bytes.Buffer).String", "(*bytes.Buffer).Bytes":
 		return &lx{Kind: "buf", Buf: &bufSpec{fn: call.Parent(), buf: c.Args[0], end: call, fr: fr}}
+	case "bytes.TrimSuffix", "strings.TrimSuffix", "bytes.TrimPrefix", "strings.TrimPrefix":
+		if k, ok := constString(c.Args[1]); ok {
+			kind := "trimsuffix"
+			if strings.HasSuffix(fnName(f), "Prefix") {
+				kind = "trimprefix"
+			}
+			return &lx{Kind: kind, S: k, Parts: []*lx{oe.strLx(c.Args[0], b, fr)}}
+		}
+		return lxAny()
 	case "encoding/json.Marshal":
 		if idx == 0 {
-			return &lx{Kind: "named", Name: "json"}
+			mark := jsonMarkBase - 1
+			if prm, ok := fr.rootOf(c.Args[0]).(*ssa.Parameter); ok {
+				for i, q := range prm.Parent().Params {
+					if q == prm {
+						mark = jsonMarkBase + i
+					}
+				}
+			}
+			return &lx{Kind: "named", Name: "json", Mark: mark}
 		}
 	case "strconv.Quote":
 		return &lx{Kind: "named", Name: "goquote"}
@@ -367,11 +530,12 @@ func (oe *outEval) inlineLx(f *ssa.Function, args []ssa.Value, idx int, b *ssa.B
 	if fr.depth >= 5 || oe.active[f] > 0 {
 		return lxAny()
 	}
-	fr2 := &oframe{fn: f, env: termEnv{}, bind: map[ssa.Value]*lx{}, depth: fr.depth + 1}
+	fr2 := &oframe{fn: f, env: termEnv{}, bind: map[ssa.Value]*lx{}, depth: fr.depth + 1, orig: map[ssa.Value]ssa.Value{}}
 	for i, prm := range f.Params {
 		if i >= len(args) {
 			continue
 		}
+		fr2.orig[prm] = fr.rootOf(args[i])
 		if t, ok := oe.s.termOf(args[i], fr.env); ok {
 			fr2.env[prm] = t
 			// the argument's own guards in the caller still hold in the callee: keep them as a binding
@@ -405,7 +569,21 @@ func (oe *outEval) inlineLx(f *ssa.Function, args []ssa.Value, idx int, b *ssa.B
 		if idx >= len(ret.Results) {
 			return lxAny()
 		}
-		// a return whose error result is certainly non-nil contributes nothing useful (zero value)
+		// return f(x): value and error of one call handed on together — the caller's test of the error covers it
+		if ex, ok := ret.Results[idx].(*ssa.Extract); ok && len(ret.Results) >= 2 {
+			if ex2, ok := ret.Results[len(ret.Results)-1].(*ssa.Extract); ok && ex2.Tuple == ex.Tuple {
+				if c, ok := ex.Tuple.(*ssa.Call); ok {
+					if oe.forwarded == nil {
+						oe.forwarded = map[*ssa.Call]bool{}
+					}
+					oe.forwarded[c] = true
+				}
+			}
+		}
+		// the caller uses the value only where the error is nil: returns with a certainly non-nil error do not count
+		if n := len(ret.Results); n >= 2 && idx != n-1 && isErrorType(ret.Results[n-1].Type()) && certainlyNonNil(ret.Results[n-1], ret.Block()) {
+			continue
+		}
 		alts = append(alts, oe.strLx(ret.Results[idx], ret.Block(), fr2))
 	}
 	if len(alts) == 0 {
@@ -540,7 +718,49 @@ func (oe *outEval) piecesOf(bs *bufSpec) {
 				bs.pieces[b] = append(bs.pieces[b], bufPiece{call, oe.charLx(c.Args[1], b)})
 			case "(*bytes.Buffer).Write":
 				bs.pieces[b] = append(bs.pieces[b], bufPiece{call, oe.strLx(c.Args[1], b, fr)})
-			case "(*bytes.Buffer).String", "(*bytes.Buffer).Len", "(*bytes.Buffer).Grow", "(*bytes.Buffer).Cap":
+			case "(*bytes.Buffer).String", "(*bytes.Buffer).Len", "(*bytes.Buffer).Grow", "(*bytes.Buffer).Cap", "(*bytes.Buffer).Bytes":
+			case "encoding/json.NewEncoder":
+				// an encoder over the buffer: each Encode appends the JSON text and a newline; HTML escaping is
+				// the default and must not be switched off, indentation must not be set
+				okEnc := true
+				var encodes []*ssa.Call
+				for _, ref := range *call.Referrers() {
+					ec, isCall := ref.(*ssa.Call)
+					if !isCall {
+						okEnc = false
+						continue
+					}
+					g := staticCallee(ec.Common())
+					if g == nil || len(ec.Common().Args) == 0 || ec.Common().Args[0] != ssa.Value(call) {
+						okEnc = false
+						continue
+					}
+					switch fnName(g) {
+					case "(*encoding/json.Encoder).Encode":
+						encodes = append(encodes, ec)
+					case "(*encoding/json.Encoder).SetEscapeHTML":
+						if on, isK := constBool(ec.Common().Args[1]); !isK || !on {
+							okEnc = false
+						}
+					default:
+						okEnc = false
+					}
+				}
+				for _, ec := range encodes {
+					pc := lxAny()
+					if okEnc {
+						mark := jsonMarkBase - 1
+						if prm, ok := fr.rootOf(ec.Common().Args[1]).(*ssa.Parameter); ok {
+							for i, q := range prm.Parent().Params {
+								if q == prm {
+									mark = jsonMarkBase + i
+								}
+							}
+						}
+						pc = lxCat(&lx{Kind: "named", Name: "json", Mark: mark}, lxLit("\n"))
+					}
+					bs.pieces[ec.Block()] = append(bs.pieces[ec.Block()], bufPiece{ec, pc})
+				}
 			case "fmt.Fprintf":
 				if format, ok := constString(c.Args[1]); ok {
 					if args, ok := variadicArgs(c.Args[2]); ok {
@@ -596,7 +816,7 @@ func (oe *outEval) register(x *lx, L *Lang, seen map[*lx]bool) error {
 	}
 	seen[x] = true
 	switch x.Kind {
-	case "lit":
+	case "lit", "trimsuffix", "trimprefix":
 		L.AddString(x.S)
 	case "set":
 		L.AddSet(x.Set)
@@ -611,6 +831,10 @@ func (oe *outEval) register(x *lx, L *Lang, seen map[*lx]bool) error {
 			return err
 		}
 	case "named":
+		if oe.Markers && x.Mark != 0 {
+			L.AddString(string(markerRune(x.Mark)))
+			break
+		}
 		re, ok := oe.Named[x.Name]
 		if !ok {
 			return fmt.Errorf("no language named %s", x.Name)
@@ -653,6 +877,10 @@ func (oe *outEval) compile(x *lx, L *Lang, memo map[*lx]*relang.DFA) (*relang.DF
 	case "set":
 		d = relang.Intersect(relang.StarOfSet(L.A, x.Set), L.FullRe(`[\s\S]`)).Minimize()
 	case "named":
+		if oe.Markers && x.Mark != 0 {
+			d = relang.Literal(L.A, string(markerRune(x.Mark)))
+			break
+		}
 		d = L.FullRe(oe.Named[x.Name])
 	case "term":
 		if oe.Markers {
@@ -690,6 +918,20 @@ func (oe *outEval) compile(x *lx, L *Lang, memo map[*lx]*relang.DFA) (*relang.DF
 				return nil, err
 			}
 			d = relang.Union(d, pd).Minimize()
+		}
+	case "trimsuffix", "trimprefix":
+		pd, err := oe.compile(x.Parts[0], L, memo)
+		if err != nil {
+			return nil, err
+		}
+		lit := relang.Literal(L.A, x.S)
+		if x.Kind == "trimsuffix" {
+			// {w ∈ L : w does not end in k} ∪ {w : wk ∈ L}
+			endsK := relang.Concat(L.All(), lit)
+			d = relang.Union(relang.Minus(pd, endsK), relang.Reverse(relang.LeftQuotientLiteral(relang.Reverse(pd), reverseString(x.S)))).Minimize()
+		} else {
+			startsK := relang.Concat(lit, L.All())
+			d = relang.Union(relang.Minus(pd, startsK), relang.LeftQuotientLiteral(pd, x.S)).Minimize()
 		}
 	case "star":
 		pd, err := oe.compile(x.Parts[0], L, memo)
@@ -926,4 +1168,77 @@ func firstIterationCertain(b *ssa.BasicBlock) bool {
 		return c0 != k
 	}
 	return false
+}
+
+func reverseString(s string) string {
+	r := []rune(s)
+	for i, j := 0, len(r)-1; i < j; i, j = i+1, j-1 {
+		r[i], r[j] = r[j], r[i]
+	}
+	return string(r)
+}
+
+// certainlyNonNil: the error value v is the result of fmt.Errorf / errors.New, or block b is
+// dominated by the true side of v != nil (the false side of v == nil).
+func certainlyNonNil(v ssa.Value, b *ssa.BasicBlock) bool {
+	if c, ok := v.(*ssa.Call); ok {
+		if g := staticCallee(c.Common()); g != nil && (fnName(g) == "fmt.Errorf" || fnName(g) == "errors.New") {
+			return true
+		}
+	}
+	for d := b; d != nil; d = d.Idom() {
+		id := d.Idom()
+		if id == nil {
+			break
+		}
+		iff, ok := id.Instrs[len(id.Instrs)-1].(*ssa.If)
+		if !ok {
+			continue
+		}
+		bo, ok := iff.Cond.(*ssa.BinOp)
+		if !ok || bo.X != v {
+			continue
+		}
+		if k, ok := bo.Y.(*ssa.Const); !ok || k.Value != nil {
+			continue
+		}
+		if bo.Op == token.NEQ && id.Succs[0].Dominates(b) && !id.Succs[1].Dominates(b) {
+			return true
+		}
+		if bo.Op == token.EQL && id.Succs[1].Dominates(b) && !id.Succs[0].Dominates(b) {
+			return true
+		}
+	}
+	return false
+}
+
+// lxHasAny: some part of x is Σ* (a value the evaluator could not follow).
+func lxHasAny(x *lx) bool {
+	seen := map[*lx]bool{}
+	var walk func(x *lx) bool
+	walk = func(x *lx) bool {
+		if x == nil || seen[x] {
+			return false
+		}
+		seen[x] = true
+		if x.Kind == "any" {
+			return true
+		}
+		for _, p := range x.Parts {
+			if walk(p) {
+				return true
+			}
+		}
+		if x.Buf != nil {
+			for _, ps := range x.Buf.pieces {
+				for _, pc := range ps {
+					if walk(pc.X) {
+						return true
+					}
+				}
+			}
+		}
+		return false
+	}
+	return walk(x)
 }
